@@ -171,7 +171,9 @@ def run_shard(shard):
                             r, cc = np.argwhere(upper != 0)[0]
                             v("maf.not_autoregressive", f"{cfg} [{mode}]: d y[{r}] / d x[{cc}] = {Jx[r, cc]!r} (output depends on a later input)", cfg, det)
                             break
-                        if finite and np.any(np.diag(Jx) == 0) and mode != "corner":
+                        # (scale underflow of an unbounded Affine transformer under large random weights legitimately
+                        #  zeroes a diagonal entry, so this clause is only evaluated for init / all-positive weights)
+                        if finite and np.any(np.diag(Jx) == 0) and mode in ("init", "positive"):
                             v("maf.zero_diagonal", f"{cfg} [{mode}]: output {int(np.argwhere(np.diag(Jx) == 0)[0][0])} does not depend on its own input", cfg, det)
                             break
                         # transformer parameters of output i depend only on inputs before i (and freely on the condition)
